@@ -25,6 +25,7 @@ import props  # noqa: E402
 
 VERIF = build.VERIF
 NPROC = int(os.environ.get('VERIF_JOBS', '16'))
+VERBOSE = bool(os.environ.get('VERIF_VERBOSE'))
 
 STUBS = [
     '__rust_alloc/_zeroed/realloc/dealloc: fresh object, never fails (allocation failure out of scope)',
@@ -41,29 +42,94 @@ def log(*a):
 
 def ll_filter(paths):
     """IR files the engine indexes: crate first, then the std crates that safe code can reach"""
-    skip = ('proc_macro', 'gimli', 'object', 'miniz_oxide', 'rustc_demangle', 'addr2line', 'build_script')
+    skip = ('build_script',)   # shared generics may live in any upstream crate's IR: index them all
     out = [p for p in paths if not os.path.basename(p).startswith(skip)]
     return out
 
 
-def run_pool(ll_paths, jobs):
-    """index the IR once, fork workers, run all jobs; yields results"""
+def run_pool(ll_paths, jobs, budget_s):
+    """index the IR once, fork workers, run all jobs.  A job that exceeds its time budget hands its unexplored
+    subtrees back (as decision strings); they are re-submitted as new jobs, so one heavy instance spreads over all
+    workers.  Returns one merged result per instance."""
     t0 = time.time()
     engine.load_module(ll_filter(ll_paths))
-    log('indexed IR in %.1fs; %d instances on %d workers' % (time.time() - t0, len(jobs), min(NPROC, max(1, len(jobs)))))
+    log('indexed IR in %.1fs; %d instances on %d workers' % (time.time() - t0, len(jobs), NPROC))
     if not jobs:
         return []
-    # longest first
     jobs = sorted(jobs, key=lambda j: -j.get('cost', 1))
     ctx = mp.get_context('fork')
-    res = []
-    with ctx.Pool(min(NPROC, len(jobs)), maxtasksperchild=None) as pool:
-        for r in pool.imap_unordered(engine.run_instance, jobs, chunksize=1):
-            res.append(r)
-            if r['status'] != 'complete' or r['violations']:
-                log('  %s %s params=%s: %s %s viol=%d' % (r['harness'], r['label'], r['params'], r['status'], r['reason'][:300],
-                                                          len(r['violations'])))
-    return res
+    merged = {}
+    order = []
+    with ctx.Pool(NPROC) as pool:
+        pending = []
+        for i, j in enumerate(jobs):
+            j = dict(j)
+            j['key'] = i
+            j['budget_s'] = budget_s
+            order.append(i)
+            pending.append((j, pool.apply_async(engine.run_instance, (j,))))
+        nsub = len(pending)
+        while pending:
+            still = []
+            progressed = False
+            for j, ar in pending:
+                if not ar.ready():
+                    still.append((j, ar))
+                    continue
+                progressed = True
+                r = ar.get()
+                if VERBOSE:
+                    log('  done %s %s dec=%d: %s paths=%d wall=%.1fs solver=%.1fs remaining=%d' % (
+                        r['harness'], r['label'], len(j.get('decisions', ())), r['status'], r['npaths'], r['wall'],
+                        r['solver_time'], len(r['remaining'])))
+                if r['status'] not in ('complete', 'partial') or r['violations']:
+                    log('  %s %s params=%s: %s %s viol=%d' % (r['harness'], r['label'], r['params'], r['status'],
+                                                              r['reason'][:300], len(r['violations'])))
+                for dec in r['remaining']:
+                    j2 = dict(j)
+                    j2['decisions'] = dec
+                    nsub += 1
+                    still.append((j2, pool.apply_async(engine.run_instance, (j2,))))
+                merge_result(merged, j['key'], r)
+            pending = still
+            if not progressed:
+                time.sleep(0.05)
+    log('%d engine runs for %d instances' % (nsub, len(jobs)))
+    return [merged[k] for k in order]
+
+
+def merge_result(merged, key, r):
+    m = merged.get(key)
+    if r['status'] == 'partial':
+        r['status'] = 'complete'
+    if m is None:
+        r['runs'] = 1
+        merged[key] = r
+        return
+    m['runs'] += 1
+    if r['status'] != 'complete':
+        m['status'] = r['status']
+        m['reason'] = r['reason']
+    for k in ('npaths', 'instructions', 'forks', 'queries', 'solver_time', 'pending'):
+        m[k] += r[k]
+    m['wall'] = max(m['wall'], r['wall'])
+    for k, v in r['paths'].items():
+        m['paths'][k] = m['paths'].get(k, 0) + v
+    for k, v in r['stats'].items():
+        m['stats'][k] = m['stats'].get(k, 0) + v
+    for k, v in r['assert_sites'].items():
+        s = m['assert_sites'].setdefault(k, [0, 0, 0])
+        for i in range(3):
+            s[i] += v[i]
+    for k, v in r['covers'].items():
+        m['covers'][k] = m['covers'].get(k, 0) + v
+    seen = set((v['kind'], v['id'], tuple(v['inputs'])) for v in m['violations'])
+    for v in r['violations']:
+        if (v['kind'], v['id'], tuple(v['inputs'])) not in seen and sum(1 for w in m['violations'] if (w['kind'], w['id']) == (v['kind'], v['id'])) < 3:
+            m['violations'].append(v)
+    m['functions'] = sorted(set(m['functions']) | set(r['functions']))
+    if len(m['path_samples']) < 12:
+        m['path_samples'] += r['path_samples'][:4]
 
 
 def native_run(binary, harness, params, inputs, timeout=120):
@@ -194,7 +260,7 @@ def main():
         for prof in profiles:
             lls = build.build_ir(prof, out)
             pj = [j for j in jobs if j.get('profile', 'dev') == prof]
-            for r in run_pool(lls, pj):
+            for r in run_pool(lls, pj, 12 if tier == 'quick' else 60):
                 r['profile'] = prof
                 results.append(r)
         bins = nat_async.get()
